@@ -983,12 +983,14 @@ package yqlib
 //@   requires n != nil && replacement != nil
 //@   ensures @a-copy-never-the-node-it-was-given {C07,C16} result != nil && fresh(result) && sameScalarAttrs(result, replacement) && result.Parent == n.Parent && len(result.Content) == len(replacement.Content) && freshSlice(result.Content)
 //@   ensures @key {C16} result.Key == ite(n.IsMapKey, n, n.Key)
+//@   ensures @stands-where-the-replaced-node-stood {C10} result.document == n.document && result.fileIndex == n.fileIndex && result.filename == n.filename
 
 //@ func (*CandidateNode).CreateReplacement
 //@   props C16 C11
 //@   requires n != nil
 //@   ensures result != nil && fresh(result) && result.Kind == kind && result.Tag == tag && result.Value == value && result.Parent == n.Parent && len(result.Content) == 0 && freshSlice(result.Content)
 //@   ensures @key {C16} result.Key == ite(n.IsMapKey, n, n.Key)
+//@   ensures @stands-where-the-replaced-node-stood {C10} result.document == n.document && result.fileIndex == n.fileIndex && result.filename == n.filename
 
 //@ pred sliceFrom(a, n) = ite(a >= 0, a, ite(n + a >= 0, n + a, 0))
 //@ pred sliceTo(b, n) = ite(b >= 0, ite(b <= n, b, n), n + b)
@@ -1463,6 +1465,7 @@ package yqlib
 //@   props C16 C11
 //@   requires n != nil
 //@   ensures result != nil && fresh(result) && result.Kind == kind && result.Tag == tag && len(result.Content) == 0 && result.Parent == n.Parent
+//@   ensures @stands-where-the-replaced-node-stood {C10} result.document == n.document && result.fileIndex == n.fileIndex && result.filename == n.filename
 
 //@ func entrySeqFor
 //@   props C16 C11
